@@ -100,6 +100,31 @@ def follow_c02(h):
         h.run("edit")
 
 
+def _delete_highest_and_add(h, rnd):
+    cur = {n: [dict(x) for x in h.tree[n]] for n in h.names if h.present[n]}
+    best = None
+    for n, slots in cur.items():
+        for x in slots:
+            if x["ref"] is not None and x["kind"] == "plain" and (best is None or x["ref"] > best[1]):
+                best = (n, x["ref"], x["uid"])
+    if best:
+        cur[best[0]] = [x for x in cur[best[0]] if x["uid"] != best[2]]
+    uid = 200 + 10 * rnd
+    for n in sorted(cur):
+        uid += 1
+        cur[n].append(S(uid))
+    h.dev(cur)
+
+
+def follow_c02_lockread(h):
+    """after a fault-free run: the developer deletes the highest-numbered statement and adds others, and the NEXT run cannot
+    examine / open / read the lock file (one failure each time)"""
+    for rnd, plan in enumerate(("op=stat,path=Breadlog.lock,nth=0:errno=5", "op=open,path=Breadlog.lock,nth=0:errno=5",
+                                "op=read,path=Breadlog.lock,nth=0:errno=5", "op=open,path=Breadlog.lock,nth=0:errno=13")):
+        _delete_highest_and_add(h, rnd)
+        h.run("edit", plan)
+
+
 def follow_fixpoint(h):
     h.run("check")
     h.run("edit")
@@ -117,7 +142,7 @@ def follow_recover(h):
     h.run("check")
 
 
-FOLLOW = {"check": follow_check, "c02": follow_c02, "fixpoint": follow_fixpoint, "recover": follow_recover}
+FOLLOW = {"check": follow_check, "c02": follow_c02, "fixpoint": follow_fixpoint, "recover": follow_recover, "c02_lockread": follow_c02_lockread}
 
 
 # ---------------------------------------------------------------------------------------------
